@@ -31,6 +31,15 @@ REGULAR = ("frontend", "infer", "diagnostics", "comptime", "no-entry", "codegen"
 def sig_of(job, r, rec, b):
     pan = r.get("panic") or {}
     msg = pan.get("msg") or ""
+    ev = rec["ev"][b["at"] - 1] if rec["ev"] else "none"
+    if ev == "render-failed":
+        # the panic inside Diagnostic::display: message and innermost function
+        for d in r["diags"]:
+            if not d["render_ok"] and d["text"].startswith("RENDER PANIC "):
+                body = d["text"][len("RENDER PANIC "):]
+                m, _, loc = body.rpartition(" @ ")
+                return {"kind": "compile-outcome", "event": ev, "site": loc.split(" in ", 1)[1] if " in " in loc else loc,
+                        "msg": norm_msg(m)}
     if msg.startswith("exit:"):
         msg = (r.get("compiler_stdout_tail") or "")[:200] or msg
     return {"kind": "compile-outcome", "event": rec["ev"][b["at"] - 1] if rec["ev"] else "none",
@@ -63,7 +72,32 @@ def inputs(chk):
         jobs.append(("nest%d" % kind, {"main.capy": corpus.nested(200, kind) + "\nmain :: () {}\n"}))
     jobs.append(("64k", {"main.capy": ("x :: 1;\n" * 9000)[:65536] + "\nmain :: () {}\n"}))
     jobs += regress_inputs()
+    jobs += geometry_inputs(chk.tier)
     return jobs
+
+
+def geometry_inputs(tier):
+    """diagnostics of every snippet geometry: an error range of L lines (a struct literal missing a
+    member) that starts after S lines and is followed by K more lines (K = 0: it ends on the last
+    line of the file).  Rendering must succeed for all of them (C06) with the right header (C25)."""
+    out = []
+    ls = range(1, 17) if tier == "quick" else range(1, 40)
+    for S in (0, 1, 3, 95, 995):
+        for L in ls:
+            for K in (0, 1, 2, 3, 6):
+                members = max(0, L - 2)
+                decl = "Config :: struct { %s debug: bool };" % " ".join("m%d: i32," % k for k in range(members))
+                pad = ["// pad %d" % k for k in range(S)]
+                if L == 1:
+                    lit = ["c :: Config.{ %s };" % ", ".join("m%d = %d" % (k, k) for k in range(members))]
+                else:
+                    lit = ["c :: Config.{"] + ["    m%d = %d," % (k, k) for k in range(members)] + ["};"]
+                tail = ["// after %d" % k for k in range(K)]
+                text = "\n".join([decl] + pad + lit + tail)
+                if K > 0:
+                    text += "\n"
+                out.append(("geom:S%d:L%d:K%d" % (S, L, K), {"main.capy": text}))
+    return out
 
 
 def regress_inputs():
